@@ -11,7 +11,7 @@ namespace RV.C07
 open RV RV.Server
 
 /-- states reachable in the repaired server -/
-def reach (H : Hash) (cfg : Cfg) (nS nD : Nat) (ls : List Label) : St := run H cfg (init nS nD) ls
+def reach (H : Hash) (cfg : Cfg) (conns : List Nat) (nD : Nat) (ls : List Label) : St := run H cfg (initWith conns nD) ls
 
 def terminalServe : ServePc → Bool
   | .notStarted | .returned _ => true
@@ -23,33 +23,33 @@ def isHandlerStart : Event → Bool
 
 /-- The accounting invariant behind everything else: activeCount = counted Serve calls + live
     datagram goroutines − (1 once Shutdown's own decrement happened). -/
-theorem active_invariant (H : Hash) (cfg : Cfg) (hv : cfg.variant = .fixed) (nS nD : Nat) (ls : List Label) :
-    let s := reach H cfg nS nD ls
+theorem active_invariant (H : Hash) (cfg : Cfg) (hv : cfg.variant = .fixed) (conns : List Nat) (nD : Nat) (ls : List Label) :
+    let s := reach H cfg conns nD ls
     s.active = (countedServes s : Int) + (liveTasks s : Int) - (if s.sd then 1 else 0) := by
-  exact (InvF_run H cfg hv nS nD ls).act
+  exact (InvF_run H cfg hv conns nD ls).act
 
 /-- No panic: `lastActive` is closed at most once, whatever the schedule. -/
-theorem closes_le_one (H : Hash) (cfg : Cfg) (hv : cfg.variant = .fixed) (nS nD : Nat) (ls : List Label) :
-    (reach H cfg nS nD ls).closes ≤ 1 ∧ (reach H cfg nS nD ls).panicked = false := by
-  have h := (InvF_run H cfg hv nS nD ls).cl1
+theorem closes_le_one (H : Hash) (cfg : Cfg) (hv : cfg.variant = .fixed) (conns : List Nat) (nD : Nat) (ls : List Label) :
+    (reach H cfg conns nD ls).closes ≤ 1 ∧ (reach H cfg conns nD ls).panicked = false := by
+  have h := (InvF_run H cfg hv conns nD ls).cl1
   refine ⟨h, ?_⟩
   simp only [St.panicked, decide_eq_false_iff_not]
   unfold reach
   omega
 
 /-- `lastActive` is closed exactly when shutdown was requested and nothing is active any more. -/
-theorem closed_iff_drained (H : Hash) (cfg : Cfg) (hv : cfg.variant = .fixed) (nS nD : Nat) (ls : List Label) :
-    let s := reach H cfg nS nD ls
+theorem closed_iff_drained (H : Hash) (cfg : Cfg) (hv : cfg.variant = .fixed) (conns : List Nat) (nD : Nat) (ls : List Label) :
+    let s := reach H cfg conns nD ls
     s.closes = 1 ↔ (s.sd = true ∧ countedServes s = 0 ∧ liveTasks s = 0) := by
-  exact (InvF_run H cfg hv nS nD ls).cl2
+  exact (InvF_run H cfg hv conns nD ls).cl2
 
 /-- Shutdown returns nil only after every Serve call has returned and every datagram goroutine
     (hence every started handler) has finished. -/
-theorem nil_after_drain (H : Hash) (cfg : Cfg) (hv : cfg.variant = .fixed) (nS nD : Nat) (ls : List Label)
-    (j : Nat) (c : Bool) (h : (reach H cfg nS nD ls).downs[j]? = some ⟨.returned .nil, c⟩) :
-    (∀ pc ∈ (reach H cfg nS nD ls).serves, terminalServe pc = true) ∧
-    (∀ t ∈ (reach H cfg nS nD ls).tasks, t.pc = .done) := by
-  have hI := InvF_run H cfg hv nS nD ls
+theorem nil_after_drain (H : Hash) (cfg : Cfg) (hv : cfg.variant = .fixed) (conns : List Nat) (nD : Nat) (ls : List Label)
+    (j : Nat) (c : Bool) (h : (reach H cfg conns nD ls).downs[j]? = some ⟨.returned .nil, c⟩) :
+    (∀ pc ∈ (reach H cfg conns nD ls).serves, terminalServe pc = true) ∧
+    (∀ t ∈ (reach H cfg conns nD ls).tasks, t.pc = .done) := by
+  have hI := InvF_run H cfg hv conns nD ls
   have hd := Drained_of_closed hI (hI.nil j c h)
   have hte : terminalServe = terminalS := by funext pc; cases pc <;> rfl
   rw [hte]
@@ -57,10 +57,10 @@ theorem nil_after_drain (H : Hash) (cfg : Cfg) (hv : cfg.variant = .fixed) (nS n
 
 /-- … and it stays so: after a nil return no handler ever starts (no extension of the schedule adds
     a `handlerStart` event). -/
-theorem no_handler_after_nil (H : Hash) (cfg : Cfg) (hv : cfg.variant = .fixed) (nS nD : Nat) (ls ls' : List Label)
-    (j : Nat) (c : Bool) (h : (reach H cfg nS nD ls).downs[j]? = some ⟨.returned .nil, c⟩) :
-    ((reach H cfg nS nD (ls ++ ls')).log.filter isHandlerStart) = ((reach H cfg nS nD ls).log.filter isHandlerStart) := by
-  have hI := InvF_run H cfg hv nS nD ls
+theorem no_handler_after_nil (H : Hash) (cfg : Cfg) (hv : cfg.variant = .fixed) (conns : List Nat) (nD : Nat) (ls ls' : List Label)
+    (j : Nat) (c : Bool) (h : (reach H cfg conns nD ls).downs[j]? = some ⟨.returned .nil, c⟩) :
+    ((reach H cfg conns nD (ls ++ ls')).log.filter isHandlerStart) = ((reach H cfg conns nD ls).log.filter isHandlerStart) := by
+  have hI := InvF_run H cfg hv conns nD ls
   have hd := Drained_of_closed hI (hI.nil j c h)
   have hhe : isHandlerStart = isHS := by funext e; cases e <;> rfl
   rw [hhe]
@@ -69,44 +69,65 @@ theorem no_handler_after_nil (H : Hash) (cfg : Cfg) (hv : cfg.variant = .fixed) 
   exact (Drained_run H cfg ls' _ hd).2
 
 /-- The caller's context error is returned only if that context ended. -/
-theorem ctx_error_only_if_ctx_done (H : Hash) (cfg : Cfg) (nS nD : Nat) (ls : List Label) (j : Nat) (c : Bool)
-    (h : (reach H cfg nS nD ls).downs[j]? = some ⟨.returned .ctxErr, c⟩) : c = true := by
-  exact (InvG_run H cfg nS nD ls).ctx j c h
+theorem ctx_error_only_if_ctx_done (H : Hash) (cfg : Cfg) (conns : List Nat) (nD : Nat) (ls : List Label) (j : Nat) (c : Bool)
+    (h : (reach H cfg conns nD ls).downs[j]? = some ⟨.returned .ctxErr, c⟩) : c = true := by
+  exact (InvG_run H cfg conns nD ls).ctx j c h
 
 /-- Shutdown closes every registered listener and cancels the request contexts. -/
-theorem shutdown_closes_listeners (H : Hash) (cfg : Cfg) (hv : cfg.variant = .fixed) (nS nD : Nat) (ls : List Label)
-    (h : (reach H cfg nS nD ls).sd = true) :
-    (reach H cfg nS nD ls).ctxCancelled = true ∧
-    ∀ i, (reach H cfg nS nD ls).listening.getD i false = true → (reach H cfg nS nD ls).connClosed.getD i 0 ≥ 1 := by
-  exact (InvF_run H cfg hv nS nD ls).sdc h
+theorem shutdown_closes_listeners (H : Hash) (cfg : Cfg) (hv : cfg.variant = .fixed) (conns : List Nat) (nD : Nat) (ls : List Label)
+    (h : (reach H cfg conns nD ls).sd = true) :
+    (reach H cfg conns nD ls).ctxCancelled = true ∧
+    ∀ c, (reach H cfg conns nD ls).listeners.getD c 0 > 0 → (reach H cfg conns nD ls).connClosed.getD c 0 ≥ 1 := by
+  exact (InvF_run H cfg hv conns nD ls).sdc h
 
 /-- Once Shutdown has been requested a later Serve call returns ErrServerShutdown without
     registering, and a running Serve call returns ErrServerShutdown when its read fails. -/
 theorem serve_after_shutdown (H : Hash) (cfg : Cfg) (s : St) (i : Nat) (hsd : s.sd = true)
     (hi : s.serves[i]? = some .notStarted) :
     ∃ s', step H cfg s (.serveEnter i) = some s' ∧ s'.serves[i]? = some (.returned .errShutdown) ∧
-      s'.listening = s.listening ∧ s'.active = s.active := by
+      s'.listeners = s.listeners ∧ s'.active = s.active := by
   refine ⟨_, serveEnter_shutdown hsd hi, ?_, rfl, rfl⟩
   simp [lt_of_getElem?_eq_some hi]
+
+/-- The listener table counts the Serve calls per conn (several calls may share one conn): a conn is in
+    the table exactly as long as some Serve call on it is registered and has not returned. -/
+theorem listeners_count (H : Hash) (cfg : Cfg) (hv : cfg.variant = .fixed) (conns : List Nat) (nD : Nat) (ls : List Label) (c : Nat) :
+    (reach H cfg conns nD ls).listeners.getD c 0 =
+      ((List.range (reach H cfg conns nD ls).serves.length).filter (fun i =>
+        (reach H cfg conns nD ls).serves[i]? == some .running && (reach H cfg conns nD ls).connOf.getD i 0 == c)).length := by
+  exact (InvF_run H cfg hv conns nD ls).cnt c
+
+/-- A read error that does not come from Shutdown's Close: once Shutdown has been requested the Serve
+    call returns ErrServerShutdown whatever the error is; before that, a non-temporary network error
+    ends this Serve call with that error (its listener registration and its count are released), and
+    any other error is logged and the loop continues (nothing changes). -/
+theorem read_failure (H : Hash) (cfg : Cfg) (s : St) (i : Nat) (k : ReadErrKind)
+    (hi : s.serves[i]? = some .running) :
+    ∃ s', step H cfg s (.serveReadFail i k) = some s' ∧
+      (s.sd = true → s'.serves[i]? = some (.returned .errShutdown)) ∧
+      (s.sd = false → k = .nonTemporary → s'.serves[i]? = some (.returned .readError) ∧
+          s'.listeners.getD (s.connOf.getD i 0) 0 = s.listeners.getD (s.connOf.getD i 0) 0 - 1) ∧
+      (s.sd = false → k = .other → s' = s) := by
+  exact read_failure' H cfg s i k hi
 
 /-- Deadlock freedom: from every reachable state in which shutdown has been requested, the threads
     can all run to completion — every Serve returned (or never started), every datagram goroutine
     done, `lastActive` closed, so that every waiting Shutdown can return nil.  (Handlers returning
     and read errors being delivered are steps of the environment; no step ever waits for a lock or
     a channel that nobody can release.) -/
-theorem no_stuck_state (H : Hash) (cfg : Cfg) (hv : cfg.variant = .fixed) (nS nD : Nat) (ls : List Label)
-    (hsd : (reach H cfg nS nD ls).sd = true) :
-    ∃ ls', let s' := reach H cfg nS nD (ls ++ ls')
+theorem no_stuck_state (H : Hash) (cfg : Cfg) (hv : cfg.variant = .fixed) (conns : List Nat) (nD : Nat) (ls : List Label)
+    (hsd : (reach H cfg conns nD ls).sd = true) :
+    ∃ ls', let s' := reach H cfg conns nD (ls ++ ls')
       (∀ pc ∈ s'.serves, terminalServe pc = true) ∧ (∀ t ∈ s'.tasks, t.pc = .done) ∧ s'.closes = 1 ∧
       ∀ j c, s'.downs[j]? = some ⟨.waiting, c⟩ → (step H cfg s' (.downReturnNil j)).isSome = true := by
-  have hI := InvF_run H cfg hv nS nD ls
-  obtain ⟨ls', hsd', h1, h2⟩ := drain (H := H) hv (drainMeasure (reach H cfg nS nD ls)) _ hI hsd (Nat.le_refl _)
+  have hI := InvF_run H cfg hv conns nD ls
+  obtain ⟨ls', hsd', h1, h2⟩ := drain (H := H) hv (drainMeasure (reach H cfg conns nD ls)) _ hI hsd (Nat.le_refl _)
   refine ⟨ls', ?_⟩
   have hI' := InvF_run_from H cfg hv ls' _ hI
   unfold reach
   rw [run_append]
   have hd := Drained_of_counts hI' hsd' h1 h2
-  have hc : (run H cfg (run H cfg (init nS nD) ls) ls').closes = 1 := hI'.cl2.mpr ⟨hsd', h1, h2⟩
+  have hc : (run H cfg (run H cfg (initWith conns nD) ls) ls').closes = 1 := hI'.cl2.mpr ⟨hsd', h1, h2⟩
   have hte : terminalServe = terminalS := by funext pc; cases pc <;> rfl
   rw [hte]
   refine ⟨hd.serves, hd.tasks, hc, ?_⟩
@@ -129,8 +150,17 @@ theorem current_double_close :
     (run (fun _ => []) cfgCurrent (init 1 1) [.serveEnter 0, .downEnter 0, .serveCount 0, .serveReadErr 0]).closes = 2 := by
   decide
 
+/-- two Serve calls on ONE conn: when the first leaves through a read error the conn stays registered,
+    Shutdown closes it, and the second call returns ErrServerShutdown (non-vacuity of the shared-conn model) -/
+example :
+    let s := run (fun _ => []) { secretOf := fun _ => .error } (initWith [0, 0] 1)
+      [.serveEnter 0, .serveEnter 1, .serveReadFail 0 .nonTemporary, .downEnter 0, .serveReadErr 1, .downReturnNil 0]
+    s.serves = [.returned .readError, .returned .errShutdown] ∧ s.connClosed = [1] ∧
+      s.downs[0]? = some ⟨.returned .nil, false⟩ := by
+  decide
+
 /-! Non-vacuity: a schedule in which a handler runs, shutdown waits for it, and everything drains. -/
-example : (reach (fun _ => zeros 16) { secretOf := fun _ => .secret [1] } 1 1
+example : (reach (fun _ => zeros 16) { secretOf := fun _ => .secret [1] } [0] 1
     [.serveEnter 0, .serveRecv 0 0 ([1, 7, 0, 20] ++ zeros 16), .taskRun 0, .downEnter 0, .downReturnNil 0,
      .taskFinish 0, .serveReadErr 0, .downReturnNil 0]).downs[0]? = some ⟨.returned .nil, false⟩ := by
   simp only [reach, run, step, classify_example]
